@@ -4,6 +4,9 @@ use std::fmt::Write as _;
 
 /// `--only <sub-stream>`: emit only that part of a stream (e.g. `state --only faulty`)
 pub static ONLY: std::sync::OnceLock<String> = std::sync::OnceLock::new();
+/// bumped by every evaluation of a basis function or derivative of the harness models: a computation
+/// that keeps calling the model is slow (its budget of evaluations is finite), not hung
+pub static HEARTBEAT: std::sync::atomic::AtomicU64 = std::sync::atomic::AtomicU64::new(0);
 pub fn only_allows(part: &str) -> bool {
     match ONLY.get() {
         Some(o) => o == part,
